@@ -99,30 +99,55 @@ fn main() {
     let mut nesting_fail: Option<usize> = None;
     let mut nesting_checked = 0usize;
     {
-        use biscuit_auth::builder::{Fact, Term};
+        use biscuit_auth::builder::{BlockBuilder, Fact, MapKey, Term};
         let kp = biscuit_auth::KeyPair::new_with_rng(biscuit_auth::builder::Algorithm::Ed25519, &mut rng);
-        for d in (1..=8).chain(40..=56) {
-            let mut t = Term::Integer(1);
-            for _ in 0..d {
-                t = Term::Array(vec![t]);
-            }
-            let r = std::panic::catch_unwind(std::panic::AssertUnwindSafe(|| {
-                let b = biscuit_auth::Biscuit::builder().fact(Fact::new("deep".to_string(), vec![t.clone()])).ok()?;
-                let tok = b.build_with_rng(&kp, biscuit_auth::datalog::SymbolTable::default(), &mut rng).ok()?;
-                let bytes = tok.to_vec().ok()?;
-                Some(biscuit_auth::Biscuit::from(&bytes, kp.public()).is_ok())
-            }));
-            nesting_checked += 1;
-            match r {
-                Ok(Some(true)) => {}
-                Ok(Some(false)) => {
-                    if nesting_fail.is_none() {
-                        nesting_fail = Some(d);
+        let kp2 = biscuit_auth::KeyPair::new_with_rng(biscuit_auth::builder::Algorithm::Ed25519, &mut rng);
+        // arrays and maps; in the authority block, in a block appended through Biscuit and through UnverifiedBiscuit
+        for kind in 0..2u8 {
+            for path in 0..3u8 {
+                for d in (1..=4).chain(if kind == 0 { 44..=52 } else { 28..=36 }) {
+                    let mut t = Term::Integer(1);
+                    for _ in 0..d {
+                        t = if kind == 0 {
+                            Term::Array(vec![t])
+                        } else {
+                            let mut m = std::collections::BTreeMap::new();
+                            m.insert(MapKey::Integer(0), t);
+                            Term::Map(m)
+                        };
                     }
-                }
-                other => {
-                    if std::env::var("BW_DEBUG").is_ok() {
-                        eprintln!("nesting depth {}: {:?}", d, other.is_ok());
+                    let r = std::panic::catch_unwind(std::panic::AssertUnwindSafe(|| {
+                        let deep = Fact::new("deep".to_string(), vec![t.clone()]);
+                        let tok = if path == 0 {
+                            biscuit_auth::Biscuit::builder().fact(deep).ok()?.build_with_rng(&kp, biscuit_auth::datalog::SymbolTable::default(), &mut rng).ok()?
+                        } else {
+                            let base = biscuit_auth::Biscuit::builder().fact("base(1)").ok()?.build_with_rng(&kp, biscuit_auth::datalog::SymbolTable::default(), &mut rng).ok()?;
+                            let bb = BlockBuilder::new().fact(deep).ok()?;
+                            if path == 1 {
+                                base.append_with_keypair(&kp2, bb).ok()?
+                            } else {
+                                let u = biscuit_auth::UnverifiedBiscuit::from(&base.to_vec().ok()?).ok()?;
+                                let u2 = u.append_with_keypair(&kp2, bb).ok()?;
+                                let bytes = u2.to_vec().ok()?;
+                                return Some(biscuit_auth::Biscuit::from(&bytes, kp.public()).is_ok());
+                            }
+                        };
+                        let bytes = tok.to_vec().ok()?;
+                        Some(biscuit_auth::Biscuit::from(&bytes, kp.public()).is_ok())
+                    }));
+                    nesting_checked += 1;
+                    match r {
+                        Ok(Some(true)) => {}
+                        Ok(Some(false)) => {
+                            if nesting_fail.is_none() {
+                                nesting_fail = Some(d);
+                            }
+                        }
+                        other => {
+                            if std::env::var("BW_DEBUG").is_ok() {
+                                eprintln!("nesting kind {} path {} depth {}: {:?}", kind, path, d, other.is_ok());
+                            }
+                        }
                     }
                 }
             }
